@@ -160,3 +160,79 @@ pub fn fresh_dir(parent: &Path, name: &str) -> PathBuf {
     std::fs::create_dir_all(&p).expect("create dir");
     p
 }
+
+/// the `typeshare.toml` that makes the binary generate with configuration `cfg` (every setting, also those without an option)
+pub fn cfg_toml(cfg: &Cfg) -> String {
+    fn s(x: &str) -> String {
+        toml::Value::String(x.to_string()).to_string()
+    }
+    fn list(xs: &[String]) -> String {
+        format!("[{}]", xs.iter().map(|x| s(x)).collect::<Vec<_>>().join(", "))
+    }
+    let mappings = |out: &mut String, sec: &str| {
+        if !cfg.type_mappings.is_empty() {
+            out.push_str(&format!("[{sec}.type_mappings]\n"));
+            for (k, v) in &cfg.type_mappings {
+                out.push_str(&format!("{} = {}\n", s(k), s(v)));
+            }
+        }
+    };
+    let mut t = String::new();
+    t.push_str("[swift]\n");
+    t.push_str(&format!("prefix = {}\n", s(&cfg.swift_prefix)));
+    t.push_str(&format!("default_decorators = {}\n", list(&cfg.swift_default_decorators)));
+    t.push_str(&format!("default_generic_constraints = {}\n", list(&cfg.swift_default_generic_constraints)));
+    t.push_str(&format!("codablevoid_constraints = {}\n", list(&cfg.swift_codablevoid_constraints)));
+    mappings(&mut t, "swift");
+    t.push_str("[kotlin]\n");
+    t.push_str(&format!("package = {}\nprefix = {}\n", s(&cfg.kotlin_package), s(&cfg.kotlin_prefix)));
+    mappings(&mut t, "kotlin");
+    t.push_str("[scala]\n");
+    t.push_str(&format!("package = {}\n", s(&cfg.scala_package)));
+    mappings(&mut t, "scala");
+    t.push_str("[typescript]\n");
+    mappings(&mut t, "typescript");
+    t.push_str("[python]\n");
+    mappings(&mut t, "python");
+    t.push_str("[go]\n");
+    t.push_str(&format!("package = {}\nuppercase_acronyms = {}\nno_pointer_slice = {}\n", s(&cfg.go_package), list(&cfg.go_acronyms), cfg.go_no_pointer_slice));
+    mappings(&mut t, "go");
+    t
+}
+
+/// Generate through the real binary (single-file mode): the counterpart of `ts::generate` for one source text.
+pub fn generate(lang: Lang, cfg: &Cfg, src: &str, scratch: &Path) -> crate::ts::Outcome {
+    use crate::ts::Outcome;
+    let root = fresh_dir(scratch, "gen");
+    write_tree(&root, &[("in/src/lib.rs".into(), src.as_bytes().to_vec()), ("conf/typeshare.toml".into(), cfg_toml(cfg).into_bytes())]);
+    let outp = root.join(format!("out.{}", lang.ext()));
+    let args: Vec<String> = vec![
+        "--lang".into(),
+        lang.name().into(),
+        "-c".into(),
+        root.join("conf/typeshare.toml").to_string_lossy().into_owned(),
+        "-o".into(),
+        outp.to_string_lossy().into_owned(),
+        root.join("in").to_string_lossy().into_owned(),
+    ];
+    let r = run(&args, &root, &[], Duration::from_secs(20));
+    let res = if r.timed_out {
+        Outcome::Panic("timeout (hang)".into())
+    } else if r.panicked() {
+        Outcome::Panic(r.stderr.lines().find(|l| l.contains("panicked at")).unwrap_or("panic").to_string())
+    } else if r.ok() {
+        match std::fs::read(&outp) {
+            Ok(b) => Outcome::Ok(String::from_utf8_lossy(&b).into_owned()),
+            Err(_) => Outcome::Empty,
+        }
+    } else {
+        let msg = r.stderr.lines().filter(|l| !l.contains(" INFO ")).collect::<Vec<_>>().join(" | ");
+        if msg.contains("Failed to parse") || msg.contains("failed to parse") {
+            Outcome::ParseErr(vec![msg])
+        } else {
+            Outcome::GenErr(msg)
+        }
+    };
+    let _ = std::fs::remove_dir_all(&root);
+    res
+}
